@@ -896,7 +896,17 @@ func c14Column(h *H, s c14ColSpec, rows int, decoded bool) {
 		}
 		var out bytes.Buffer
 		var w *proto.Writer
-		if c14PrefixMode++; c14PrefixMode%2 == 0 {
+		if c14PrefixMode++; c14PrefixMode%3 == 2 {
+			// a Writer with a history: an earlier, longer packet of non-zero bytes went through its staging buffer and
+			// was flushed; nothing of it may show in what is written now
+			w = proto.NewWriter(&out, new(proto.Buffer))
+			w.ChainBuffer(func(b *proto.Buffer) { b.PutRaw(bytes.Repeat([]byte{0xA5}, 70000)) })
+			if _, err := w.Flush(); err != nil {
+				return err
+			}
+			out.Reset()
+			w.ChainBuffer(func(b *proto.Buffer) { b.PutRaw(prefix) })
+		} else if c14PrefixMode%3 == 0 {
 			// the bytes that precede are already in the buffer the Writer is given (every starting state of the
 			// output buffer): they have to go out first all the same
 			w = proto.NewWriter(&out, &proto.Buffer{Buf: append([]byte(nil), prefix...)})
